@@ -118,7 +118,7 @@ func HLayoutExplicit() {
 		vObserve("rejected", cd.open)
 		return
 	}
-	vSameDigest(vDigest(cA), vDigest(cB), "c08-explicit-context-changes-catalog")
+	vSameDigest(vDigestDeep(cA), vDigestDeep(cB), "c08-explicit-context-changes-catalog")
 	vReach("same-catalog")
 	vObserve("same", cd.open, cd.close)
 }
